@@ -110,6 +110,72 @@ Proof.
   - change (existsb (N.eqb c) (x :: y :: t)) with (N.eqb c x || existsb (N.eqb c) (y :: t)). now rewrite Hx, IH.
 Qed.
 
+Lemma split_semi h : h = before_semi h ++ from_semi h.
+Proof.
+  induction h as [|c r IH]; sstep; [reflexivity|].
+  destruct (N.eqb 59 c); sstep; [reflexivity|]. now rewrite <- IH.
+Qed.
+
+Lemma from_semi_none h : contains_semicolon h = false -> from_semi h = [].
+Proof.
+  unfold contains_semicolon, contains_byte. induction h as [|c r IH]; sstep; [reflexivity|].
+  destruct (N.eqb 59 c); sstep; [discriminate|exact IH].
+Qed.
+
+Lemma trim_right_blank ws : forallb is_sp_tab ws = true -> trim_right ws = [].
+Proof.
+  induction ws as [|c r IH]; [reflexivity|]. cbn [forallb trim_right]. intro H.
+  apply andb_true_iff in H as [Hc Hr]. now rewrite (IH Hr), Hc.
+Qed.
+
+Lemma trim_right_app_blank x ws : forallb is_sp_tab ws = true -> trim_right (x ++ ws) = trim_right x.
+Proof.
+  intro H. induction x as [|c r IH]; [now apply trim_right_blank|].
+  cbn [app trim_right]. now rewrite IH.
+Qed.
+
+Lemma trim_right_last a c : is_sp_tab c = false -> trim_right (a ++ [c]) = a ++ [c].
+Proof.
+  intro H. induction a as [|x r IH]; cbn [app trim_right]; [now rewrite H|].
+  rewrite IH. destruct r; reflexivity.
+Qed.
+
+Lemma trim_right_split s : exists ws, s = trim_right s ++ ws /\ forallb is_sp_tab ws = true.
+Proof.
+  induction s as [|c r (ws & E & B)]; [exists []; split; reflexivity|].
+  cbn [trim_right]. destruct (trim_right r) as [|y t] eqn:T.
+  - destruct (is_sp_tab c) eqn:C.
+    + exists (c :: ws). split; [simpl in E; now rewrite E at 1|]. cbn [forallb]. now rewrite C, B.
+    + exists ws. split; [simpl in *; now rewrite E at 1|exact B].
+  - exists ws. split; [|exact B]. cbn [app]. f_equal. exact E.
+Qed.
+
+Lemma trim_right_idem s : trim_right (trim_right s) = trim_right s.
+Proof.
+  destruct (trim_right_split s) as (ws & E & B). rewrite E at 2. symmetry. now apply trim_right_app_blank.
+Qed.
+
+Lemma upto_last_plus_no c s t : upto_last_plus s = Some t -> contains_byte c s = false -> contains_byte c t = false.
+Proof.
+  unfold contains_byte. revert t. induction s as [|x r IH]; intros t; cbn [upto_last_plus existsb]; [discriminate|].
+  intros H N. apply orb_false_iff in N as [Nx Nr].
+  destruct (upto_last_plus r) as [t'|].
+  - injection H as <-. cbn [existsb]. rewrite Nx. now apply IH.
+  - destruct (N.eqb 43 x); [injection H as <-; reflexivity|discriminate].
+Qed.
+
+Lemma strip_last_plus_no c s : contains_byte c s = false -> contains_byte c (strip_last_plus s) = false.
+Proof.
+  intro H. unfold strip_last_plus. destruct (upto_last_plus s) as [t|] eqn:E; [|exact H].
+  exact (upto_last_plus_no c s t E H).
+Qed.
+
+Lemma media_part_no_semi h : contains_semicolon (media_part h) = false.
+Proof.
+  unfold media_part. destruct (contains_semicolon h) eqn:C; [|exact C].
+  apply trim_right_no, before_semi_no_semi.
+Qed.
+
 (* ------------------------------------------------------------------ classification *)
 
 (* the two separately written switches agree *)
@@ -184,20 +250,19 @@ Lemma set_content_type_cases h ct :
   let r := set_content_type h ct in
   (h = [] /\ r = ct)
   \/ (h <> [] /\ ct <> app_json /\ ct <> app_xml /\ r = ct)
-  \/ (h <> [] /\ (ct = app_json \/ ct = app_xml) /\ contains_plus h = true /\ r = h)
-  \/ (h <> [] /\ ct = app_json /\ contains_plus h = false /\ r = insert_suffix sfx_json h)
-  \/ (h <> [] /\ ct = app_xml /\ contains_plus h = false /\ r = insert_suffix sfx_xml h).
+  \/ (h <> [] /\ exists sfx, ((ct = app_json /\ sfx = sfx_json) \/ (ct = app_xml /\ sfx = sfx_xml)) /\
+        ((has_suffix sfx (media_part h) = true /\ r = h)
+         \/ (has_suffix sfx (media_part h) = false /\ r = strip_last_plus (media_part h) ++ sfx ++ from_semi h))).
 Proof.
   unfold set_content_type. simpl.
   destruct (beq h []) eqn:E0; [apply beq_eq in E0; auto|]. apply beq_neq in E0.
   destruct (beq ct app_json) eqn:E1; simpl.
-  - apply beq_eq in E1. subst ct.
-    destruct (contains_plus h) eqn:P; [right; right; left; auto|].
-    right; right; right; left. change (beq app_json app_xml) with false. auto.
+  - apply beq_eq in E1. subst ct. right; right. split; [exact E0|]. exists sfx_json.
+    change (beq app_json app_xml) with false. cbv iota. split; [auto|].
+    destruct (has_suffix sfx_json (media_part h)); auto.
   - apply beq_neq in E1. destruct (beq ct app_xml) eqn:E2; simpl.
-    + apply beq_eq in E2. subst ct.
-      destruct (contains_plus h) eqn:P; [right; right; left; auto|].
-      right; right; right; right. auto.
+    + apply beq_eq in E2. subst ct. right; right. split; [exact E0|]. exists sfx_xml. split; [auto|].
+      destruct (has_suffix sfx_xml (media_part h)); auto.
     + apply beq_neq in E2. right; left. auto.
 Qed.
 
@@ -252,7 +317,6 @@ Section WithOracle.
   Qed.
 
   Hypothesis Hsfx : parser_keeps_suffix pmt.
-
   Hypothesis Hacc : parser_accepts_suffixed pmt.
 
   Lemma dec_classify_of_suffix sfx k m :
@@ -261,42 +325,68 @@ Section WithOracle.
     intros [[-> ->]|[-> ->]] H; [now apply dec_classify_sfx_json|now apply dec_classify_sfx_xml].
   Qed.
 
-  (* b ++ sfx ++ p with p empty or starting at the first ';': read back as the kind of sfx,
-     provided the parser accepts it or there are no parameters *)
-  Lemma decoder_of_suffixed b sfx p k :
+  (* b ++ sfx ++ ws ++ p (ws blanks, p empty or starting at the first ';') is read back as the
+     kind of sfx when the suffix is at the very end or the parser accepts the value *)
+  Lemma decoder_of_suffixed b sfx ws p k :
     (sfx = sfx_json /\ k = KJson) \/ (sfx = sfx_xml /\ k = KXml) ->
-    contains_semicolon b = false ->
-    (p = [] \/ ((exists r, p = 59 :: r) /\ pmt (b ++ sfx ++ p) <> None)) ->
-    response_decoder pmt (b ++ sfx ++ p) = k.
+    contains_semicolon b = false -> forallb is_sp_tab ws = true -> (p = [] \/ exists r, p = 59 :: r) ->
+    ((ws = [] /\ p = []) \/ pmt (b ++ sfx ++ ws ++ p) <> None) ->
+    response_decoder pmt (b ++ sfx ++ ws ++ p) = k.
   Proof.
-    intros S Hb Hp. unfold response_decoder.
-    assert (Hne : beq (b ++ sfx ++ p) [] = false)
+    intros S Hb Hws Hp Hok. unfold response_decoder.
+    assert (Hne : beq (b ++ sfx ++ ws ++ p) [] = false)
       by (apply nonempty_app_mid; destruct S as [[-> _]|[-> _]]; discriminate).
     rewrite Hne. unfold norm.
-    assert (Hp' : p = [] \/ exists r, p = 59 :: r) by (destruct Hp as [->|[Hr _]]; auto).
-    destruct (pmt (b ++ sfx ++ p)) as [m|] eqn:P.
+    destruct (pmt (b ++ sfx ++ ws ++ p)) as [m|] eqn:P.
     - apply (dec_classify_of_suffix sfx k m S).
-      destruct (Hsfx b p m Hb Hp') as [HJ HX].
+      destruct (Hsfx b ws p m Hb Hws Hp) as [HJ HX].
       destruct S as [[-> _]|[-> _]]; [apply HJ|apply HX]; exact P.
-    - destruct Hp as [->|[_ Hn]]; [|contradiction].
-      apply (dec_classify_of_suffix sfx k _ S). rewrite app_nil_r. apply has_suffix_app.
+    - destruct Hok as [[-> ->]|Hn]; [|contradiction].
+      apply (dec_classify_of_suffix sfx k _ S). rewrite !app_nil_r. apply has_suffix_app.
   Qed.
 
-  Lemma decoder_of_inserted h sfx k :
-    (sfx = sfx_json /\ k = KJson) \/ (sfx = sfx_xml /\ k = KXml) ->
-    contains_plus h = false -> (contains_semicolon h = false \/ (field_safe h = true /\ pmt h <> None)) ->
-    response_decoder pmt (insert_suffix sfx h) = k.
+  Lemma decoder_of_set h ct k :
+    h <> [] -> ((ct = app_json /\ k = KJson) \/ (ct = app_xml /\ k = KXml)) ->
+    (contains_semicolon h = false \/ (field_safe h = true /\ pmt h <> None)) ->
+    response_decoder pmt (set_content_type h ct) = k.
   Proof.
-    intros S Hplus Hsemi. unfold insert_suffix. destruct (contains_semicolon h) eqn:C.
-    - destruct Hsemi as [Hs|[Hsafe Hs]]; [discriminate|].
+    intros Hne Hct Hok.
+    assert (Hacc' : contains_semicolon h = true -> pmt (set_content_type h ct) <> None).
+    { intro C. destruct Hok as [Hs|[Hsafe Hp]]; [congruence|].
       destruct (pmt h) as [m0|] eqn:P0; [|contradiction].
-      destruct (from_semi_head h C) as [r Hr].
-      apply decoder_of_suffixed; [exact S| |right; split; [eauto|]].
-      + apply trim_right_no. apply before_semi_no_semi.
-      + destruct (Hacc h m0 Hsafe Hplus C P0) as [AJ AX]. unfold insert_suffix in AJ, AX. rewrite C in AJ, AX.
-        destruct S as [[-> _]|[-> _]]; assumption.
-    - replace (h ++ sfx) with (h ++ sfx ++ []) by now rewrite app_nil_r.
-      apply decoder_of_suffixed; auto.
+      destruct (Hacc h m0 Hsafe C P0) as [AJ AX]. destruct Hct as [[-> _]|[-> _]]; assumption. }
+    destruct (set_content_type_cases h ct) as [(E & _)|[(_ & N1 & N2 & _)|(_ & sfx & Hs & Hr)]].
+    - contradiction.
+    - destruct Hct as [[-> _]|[-> _]]; contradiction.
+    - assert (S : (sfx = sfx_json /\ k = KJson) \/ (sfx = sfx_xml /\ k = KXml)).
+      { destruct Hs as [[E1 ->]|[E1 ->]]; destruct Hct as [[E2 ->]|[E2 ->]]; auto; subst ct; discriminate. }
+      assert (Hp : from_semi h = [] \/ exists r, from_semi h = 59 :: r).
+      { destruct (contains_semicolon h) eqn:C; [right; now apply from_semi_head|left; now apply from_semi_none]. }
+      destruct Hr as [(Hsuf & Hr)|(Hsuf & Hr)].
+      + (* untouched: the media part already ends with the suffix *)
+        apply has_suffix_spec in Hsuf as [b Hb].
+        assert (Nb : contains_semicolon b = false).
+        { pose proof (media_part_no_semi h) as M. rewrite Hb in M. unfold contains_semicolon in *.
+          rewrite contains_byte_app in M. now apply orb_false_iff in M as [M _]. }
+        destruct (contains_semicolon h) eqn:C.
+        * destruct (trim_right_split (before_semi h)) as (ws & E & B).
+          assert (Eh : h = b ++ sfx ++ ws ++ from_semi h).
+          { rewrite (split_semi h) at 1. rewrite E. unfold media_part in Hb. rewrite C in Hb. rewrite Hb.
+            now rewrite <- !app_assoc. }
+          rewrite Hr. rewrite Eh at 1. apply decoder_of_suffixed; auto.
+          right. rewrite <- Eh. rewrite <- Hr. now apply Hacc'.
+        * unfold media_part in Hb. rewrite C in Hb. rewrite Hr, Hb.
+          replace (b ++ sfx) with (b ++ sfx ++ [] ++ []) by now rewrite !app_nil_r.
+          apply decoder_of_suffixed; auto.
+      + (* another suffix (or none): replaced / appended *)
+        rewrite Hr.
+        replace (strip_last_plus (media_part h) ++ sfx ++ from_semi h)
+          with (strip_last_plus (media_part h) ++ sfx ++ [] ++ from_semi h) by reflexivity.
+        apply decoder_of_suffixed; auto.
+        * apply strip_last_plus_no, media_part_no_semi.
+        * destruct (contains_semicolon h) eqn:C.
+          -- right. cbn [app]. rewrite <- Hr. now apply Hacc'.
+          -- left. split; [reflexivity|now apply from_semi_none].
   Qed.
 
   Lemma roundtrip_preset accept ct preset k hdr :
@@ -304,19 +394,13 @@ Section WithOracle.
     preset_ok pmt k preset -> response_decoder pmt hdr = k.
   Proof.
     intros H Hok. apply chosen_inv in H as (mt & -> & Hk & Hn).
-    destruct (set_content_type_cases preset mt) as
-      [(_ & ->)|[(_ & _ & _ & ->)|[(Hne & Hmt & Hplus & ->)|[(Hne & -> & Hplus & ->)|(Hne & -> & Hplus & ->)]]]].
-    - now apply decoder_of_chosen.
-    - now apply decoder_of_chosen.
-    - assert (Hk2 : k = KJson \/ k = KXml) by (destruct Hmt as [->| ->]; vm_compute in Hk; auto).
-      unfold preset_ok in Hok.
-      destruct Hk2 as [-> | ->]; destruct Hok as [E|[[E _]|[_ E]]]; try contradiction; try congruence.
-    - vm_compute in Hk. subst k. unfold preset_ok in Hok.
-      destruct Hok as [E|[[_ E]|[E _]]]; [contradiction| |congruence].
-      apply decoder_of_inserted; auto.
-    - vm_compute in Hk. subst k. unfold preset_ok in Hok.
-      destruct Hok as [E|[[_ E]|[E _]]]; [contradiction| |congruence].
-      apply decoder_of_inserted; auto.
+    destruct (set_content_type_cases preset mt) as [(_ & E)|[(_ & _ & _ & E)|(Hne & sfx & Hs & _)]].
+    - simpl in E. rewrite E. now apply decoder_of_chosen.
+    - simpl in E. rewrite E. now apply decoder_of_chosen.
+    - assert (Hct : (mt = app_json /\ k = KJson) \/ (mt = app_xml /\ k = KXml)).
+      { destruct Hs as [[-> _]|[-> _]]; vm_compute in Hk; auto. }
+      apply decoder_of_set; [exact Hne|exact Hct|].
+      unfold preset_ok in Hok. destruct Hct as [[_ ->]|[_ ->]]; destruct Hok as [E|[E|E]]; auto; contradiction.
   Qed.
 
   (* missing or unrecognised preference: JSON, announced as application/json *)
@@ -461,9 +545,27 @@ Proof.
   rewrite app_assoc. destruct Hp as [->|[r ->]]; [rewrite app_nil_r; now apply before_semi_id|now apply before_semi_app].
 Qed.
 
-(* a parser that returns what stands in front of the first ';' (as Go's does, up to case
-   and blanks): satisfies the four hypotheses *)
-Definition cut_parser (s : bytes) : option bytes := Some (before_semi s).
+(* a parser that returns what stands in front of the first ';' without trailing blanks (as
+   Go's does, up to case and leading blanks): satisfies the four hypotheses *)
+Definition cut_parser (s : bytes) : option bytes := Some (trim_right (before_semi s)).
+
+Lemma cut_suffixed b sfx ws p c0 a0 :
+  sfx = a0 ++ [c0] -> is_sp_tab c0 = false ->
+  contains_semicolon b = false -> contains_semicolon sfx = false -> forallb is_sp_tab ws = true ->
+  (p = [] \/ exists r, p = 59 :: r) ->
+  trim_right (before_semi (b ++ sfx ++ ws ++ p)) = b ++ sfx.
+Proof.
+  intros Es Hc Hb Hs Hws Hp.
+  assert (Nw : contains_semicolon ws = false).
+  { unfold contains_semicolon, contains_byte. clear -Hws. induction ws as [|x r IH]; [reflexivity|].
+    cbn [forallb existsb] in *. apply andb_true_iff in Hws as [Hx Hr]. rewrite (IH Hr), orb_false_r.
+    unfold is_sp_tab in Hx. apply orb_true_iff in Hx as [Hx|Hx]; apply N.eqb_eq in Hx; subst x; reflexivity. }
+  replace (b ++ sfx ++ ws ++ p) with (b ++ (sfx ++ ws) ++ p) by now rewrite <- !app_assoc.
+  rewrite before_semi_suffixed; auto.
+  2:{ unfold contains_semicolon in *. now rewrite contains_byte_app, Hs, Nw. }
+  rewrite app_assoc, trim_right_app_blank by exact Hws.
+  rewrite Es, app_assoc. now apply trim_right_last.
+Qed.
 
 Lemma cut_parser_sane :
   parser_stable cut_parser /\ parser_fixes_supported cut_parser /\ parser_keeps_suffix cut_parser
@@ -471,14 +573,16 @@ Lemma cut_parser_sane :
 Proof.
   split; [|split; [|split]].
   - intros s m H. unfold cut_parser in H. injection H as <-. unfold norm, cut_parser.
-    apply before_semi_id, before_semi_no_semi.
+    rewrite before_semi_id by (apply trim_right_no, before_semi_no_semi). apply trim_right_idem.
   - intros c Hin. apply in_supported_iff in Hin.
     destruct Hin as [->|[->|[->|[->| ->]]]]; reflexivity.
-  - intros b p m Hb Hp. unfold cut_parser.
+  - intros b ws p m Hb Hws Hp. unfold cut_parser.
     split; intro H.
-    + assert (E : m = before_semi (b ++ sfx_json ++ p)) by congruence. rewrite E, before_semi_suffixed; auto using has_suffix_app.
-    + assert (E : m = before_semi (b ++ sfx_xml ++ p)) by congruence. rewrite E, before_semi_suffixed; auto using has_suffix_app.
-  - intros h m _ _ _ _. unfold cut_parser. split; discriminate.
+    + assert (E : m = trim_right (before_semi (b ++ sfx_json ++ ws ++ p))) by congruence.
+      rewrite E, (cut_suffixed b sfx_json ws p 110 [43;106;115;111]); auto using has_suffix_app.
+    + assert (E : m = trim_right (before_semi (b ++ sfx_xml ++ ws ++ p))) by congruence.
+      rewrite E, (cut_suffixed b sfx_xml ws p 108 [43;120;109]); auto using has_suffix_app.
+  - intros h m _ _ _. unfold cut_parser. split; discriminate.
 Qed.
 
 (* toy codecs: one tag byte per format, then the payload; they round trip, and a decoder
@@ -505,20 +609,19 @@ Proof.
   unfold toy_dec. rewrite N.eqb_refl. destruct v; reflexivity.
 Qed.
 
-(* the recorded finding, on the model: pre-set `application/vnd.x+xml`, no preference, JSON
-   encoder; the header is left alone and the library decoder reads it as XML *)
+(* what used to be the finding preset-suffix-mismatch (repaired): pre-set
+   `application/vnd.x+xml`, no preference, JSON encoder: the suffix is replaced, the decoder
+   reads JSON; a '+' inside a parameter no longer suppresses the suffix; an agreeing suffix is
+   left untouched *)
 Definition w_preset_xml : bytes := Eval vm_compute in bs "application/vnd.x+xml".
 
-Lemma preset_suffix_witness :
-  response_encoder cut_parser (fun _ => []) [] [] w_preset_xml = (Some KJson, w_preset_xml)
-  /\ response_decoder cut_parser w_preset_xml = KXml
-  /\ forall v b, encode toy_enc KJson v = Some b ->
-                 decode toy_dec (response_decoder cut_parser w_preset_xml) (shape_of v) b = None.
-Proof.
-  split; [vm_compute; reflexivity|]. split; [vm_compute; reflexivity|].
-  intros v b H. change (response_decoder cut_parser w_preset_xml) with KXml.
-  simpl in H. unfold toy_enc in H. injection H as <-. reflexivity.
-Qed.
+Lemma preset_suffix_example :
+  response_encoder cut_parser (fun _ => []) [] [] w_preset_xml = (Some KJson, bs "application/vnd.x+json")
+  /\ response_decoder cut_parser (bs "application/vnd.x+json") = KJson
+  /\ set_content_type (bs "a/b; x=y+z") app_xml = bs "a/b+xml; x=y+z"
+  /\ set_content_type (bs "application/ld+json ; profile=x") app_json = bs "application/ld+json ; profile=x"
+  /\ set_content_type (bs "Application/Vnd.X+JSON") app_json = bs "Application/Vnd.X+json".
+Proof. repeat split; vm_compute; reflexivity. Qed.
 
 (* what used to be the second finding (repaired in /repo 04b25e0): a pre-set header with
    parameters now gets the suffix in front of them and the decoder reads it as XML *)
@@ -545,10 +648,10 @@ Proof. split; vm_compute; reflexivity. Qed.
 Lemma roundtrip_preset_params pmt errmt :
   parser_stable pmt -> parser_fixes_supported pmt -> parser_keeps_suffix pmt -> parser_accepts_suffixed pmt ->
   forall accept ct preset k hdr,
-    field_safe preset = true -> contains_plus preset = false -> contains_semicolon preset = true -> pmt preset <> None ->
+    field_safe preset = true -> pmt preset <> None ->
     response_encoder pmt errmt accept ct preset = (Some k, hdr) -> response_decoder pmt hdr = k.
 Proof.
-  intros Hs Hf Hk Ha accept ct preset k hdr Hsafe Hp Hc Hn H.
+  intros Hs Hf Hk Ha accept ct preset k hdr Hsafe Hn H.
   apply (roundtrip_preset pmt errmt Hs Hf Hk Ha accept ct preset k hdr H).
   destruct k; simpl; auto 6.
 Qed.
@@ -653,4 +756,16 @@ Proof.
   apply send_wire in H as (hdr & R & S); [|reflexivity].
   exists hdr. split; [exact S|]. split; [exact (roundtrip_fresh pmt errmt Hs Hf accept [] k hdr R)|].
   split; [exact Hb|]. intros ->. rewrite Hb. reflexivity.
+Qed.
+
+(* a pre-set header without parameters round trips whatever '+' suffix it carries *)
+Lemma roundtrip_preset_no_params pmt errmt :
+  parser_stable pmt -> parser_fixes_supported pmt -> parser_keeps_suffix pmt -> parser_accepts_suffixed pmt ->
+  forall accept ct preset k hdr,
+    contains_semicolon preset = false ->
+    response_encoder pmt errmt accept ct preset = (Some k, hdr) -> response_decoder pmt hdr = k.
+Proof.
+  intros Hs Hf Hk Ha accept ct preset k hdr Hc H.
+  apply (roundtrip_preset pmt errmt Hs Hf Hk Ha accept ct preset k hdr H).
+  destruct k; simpl; auto.
 Qed.
